@@ -280,7 +280,8 @@ def gen_cxx(md, policy=0, introspect=False, frontend="functor"):
         if p is None:
             w("struct Ev%d : H::EvB { Ev%d(int p = 0, int t = %d) : H::EvB{t, p} {} template <class O, class = std::enable_if_t<std::is_base_of_v<H::EvB, O> && !std::is_base_of_v<Ev%d, O>>> Ev%d(O const& o) : H::EvB{%d, o.pay} {} };" % (e, e, e, e, e, e))
         else:
-            w("struct Ev%d : Ev%d { Ev%d(int p = 0, int t = %d) : Ev%d(p, t) {} };" % (e, p, e, e, p))
+            # a derived event type converts from every other event type too (exit pseudo states convert the event they are entered with)
+            w("struct Ev%d : Ev%d { Ev%d(int p = 0, int t = %d) : Ev%d(p, t) {} template <class O, class = std::enable_if_t<std::is_base_of_v<H::EvB, O> && !std::is_base_of_v<Ev%d, O>>> Ev%d(O const& o) : Ev%d(o.pay, %d) {} };" % (e, p, e, e, p, e, e, p, e))
     w("#define H_EVENTS(X) " + " ".join("X(%d)" % e for e in evs))
     w("#include \"prelude2.hpp\"")
     flags = sorted({f for _, m in walk(md["root"]) for st in m["states"] for f in st["flags"]})
@@ -609,6 +610,16 @@ def cxx_guard(r):
     return "H::Grd<%d>" % r["id"] if r["guard"] else "none"
 
 
+def kleene_into_exit(md):
+    for _, m in walk(md["root"]):
+        for r in m["rows"]:
+            t = r["tgt"]
+            if r["trig"] == "any" and isinstance(t, list) and t[0] == "state" and 0 <= t[1] < len(m["states"]):
+                k = m["states"][t[1]]["kind"]
+                if isinstance(k, list) and k[0] == "exitpt":
+                    return True
+    return False
+
 def supported(md, cfgname):
     """is the definition inside what the configuration's library accepts (compiles)"""
     base = cfgname.split(":")[0].split("@")[0].replace("+circ", "")
@@ -619,6 +630,8 @@ def supported(md, cfgname):
             return False      # back11: a machine's own internal_transition_table does not compile (Event& vs const Event)
         if base == "back11" and any((isinstance(st["kind"], list) and st["kind"][0] == "exitpt") or st["kind"] == "entrypt" for st in m["states"]):
             return False      # back11: the const event re-dispatched by an exit / entry point does not compile against chained rows
+    if base.startswith("mp11") and kleene_into_exit(md):
+        return False          # backmp11: a Kleene row whose target is an exit pseudo state does not compile (std::any -> event)
     has_any = any(r["trig"] == "any" for _, m in walk(md["root"]) for r in all_rows(m))
     has_base = any(p is not None for p in md["parents"])
     if (has_any or has_base) and base in ("back_fct", "mp11_fct", "mp11_fpa", "back11"):
@@ -638,6 +651,16 @@ def adapt(md, cfgname):
         return md
     md2 = copy.deepcopy(md)
     base = cfgname.split(":")[0].split("@")[0].replace("+circ", "")
+    if base.startswith("mp11") and kleene_into_exit(md2):
+        for _, m in walk(md2["root"]):
+            for r in m["rows"]:
+                t = r["tgt"]
+                if r["trig"] == "any" and isinstance(t, list) and t[0] == "state" and 0 <= t[1] < len(m["states"]):
+                    k = m["states"][t[1]]["kind"]
+                    if isinstance(k, list) and k[0] == "exitpt":
+                        r["trig"] = ["ev", EV_FIRST_USER]
+        if supported(md2, cfgname):
+            return md2
     if base in ("back_fct", "mp11_fct", "mp11_fpa", "back11"):
         # replace Kleene triggers and drop the inheritance between event types
         md2["parents"] = [None] * len(md2["parents"])
